@@ -213,3 +213,27 @@ Theorem C17_durations_agree_with_C04 : forall f has_notifier add,
       [Handshake.EClosePeer; Handshake.EBlock dur'; Handshake.EReturnErr (Compose_p2p.refusal_of f)].
 Proof. exact Compose_p2p.durations_agree. Qed.
 Print Assumptions C17_durations_agree_with_C04.
+
+(* The error-to-block-duration decision of the two handshake failure paths is not hand-written knowledge:
+   [c17_inbound_block_fn] (handleConnectReq) and [c17_outbound_block_fn] (Connect) are regenerated on every run
+   from the switch over errors.Is alternatives by the translator of harness/extract.  Arguments: the answers of
+   errors.Is for ErrSignatureVerificationFailed, ErrObservedAddressMismatch, ErrInsufficientStake in source
+   order; result: the duration handed to blockPeer, None when blockPeer is not called. *)
+From MevVerif Require gen.Generated.
+Theorem C17_model_is_translation_of_source_block_duration : forall f : hs_failure,
+  Generated.c17_inbound_block_fn (Blocklist_proofs.is_failure f SigFailed) (Blocklist_proofs.is_failure f AddrMismatch)
+                                 (Blocklist_proofs.is_failure f LowStake) = inbound_block_duration f /\
+  Generated.c17_outbound_block_fn (Blocklist_proofs.is_failure f SigFailed) (Blocklist_proofs.is_failure f AddrMismatch)
+                                  (Blocklist_proofs.is_failure f LowStake) = outbound_block_duration f.
+Proof. exact Blocklist_proofs.block_duration_translation. Qed.
+Print Assumptions C17_model_is_translation_of_source_block_duration.
+
+(* The same for arbitrary answers of the three tests (an error may wrap several of the values): the first
+   alternative that matches decides; no match, no block. *)
+Theorem C17_model_is_translation_of_source_block_table : forall s a k : bool,
+  Generated.c17_inbound_block_fn s a k =
+    (if s then Some 0 else if a then Some 0 else if k then Some 120000000000 else None) /\
+  Generated.c17_outbound_block_fn s a k =
+    (if s then Some 0 else if a then Some 0 else if k then Some 300000000000 else None).
+Proof. exact Blocklist_proofs.block_table_translation. Qed.
+Print Assumptions C17_model_is_translation_of_source_block_table.
